@@ -41,9 +41,16 @@ class St:
         self.np_rng = np.random.default_rng(ctx.rng.randrange(2 ** 31))
         self.n_inputs = 3
         self.stats = {}          # family -> dict(instances, fired, not_fired, invalid, known)
-        self.cases = {"norm": [], "mm": [], "rot": [], "sdpa": [], "bgelu": [], "attn": [], "gn": [], "cs": []}
+        self.cases = {"norm": [], "mm": [], "rot": [], "sdpa": [], "bgelu": [], "attn": [], "gn": [], "cs": [], "sm": []}
         self.meta = {k: [] for k in self.cases}
         self.structural_only = set()
+        # which variant of a repaired side condition the implementation is (False = as read at bbeff32, True = repaired):
+        # decided by the finding-class probe of each family; case texts carry @name@ placeholders resolved in coq_correspondence
+        self.flags = {}
+
+    def flag_text(self, text):
+        import re
+        return re.sub(r"@([A-Za-z0-9_.:-]+)@", lambda m_: cbool(bool(self.flags.get(m_.group(1), False))), text)
 
     def stat(self, fam, k, n=1):
         d = self.stats.setdefault(fam, {"instances": 0, "fired": 0, "not_fired": 0, "invalid_instance": 0, "finding_class": 0})
@@ -207,7 +214,12 @@ def fam_rms(st):
             in_scale = pick(rng, [1.0, 1.0, 1e-3])       # rows of magnitude 1e-3: variance ~ epsilon, a wrong epsilon is visible
             p["input_scale"] = in_scale
             fired, m2 = probe(st, variant, g, fn, p, expect=expect, finding=finding, fused_ops=(fused,), cls=cls + (in_scale,), scale=in_scale)
-            if fired is None or finding is not None:
+            if fired is None:
+                continue
+            rank_finding = finding is not None and finding.endswith("rank-exceeds-input-rank")
+            if rank_finding and p["eps_shape"] == [1, 1, 1, 1]:
+                st.flags["rank_guard:" + variant] = not fired        # the witness of C19_rms_rank_as_read_refuted decides the variant
+            if finding is not None and not rank_finding:
                 continue
             obs = None
             if fired:
@@ -219,7 +231,9 @@ def fam_rms(st):
                 if ins[:2] != ["x", "scale"]:
                     ctx.tie_broken("correspondence", f"{variant}:inputs", f"{p}: fused inputs {ins}")
             if struct_ok:
-                st.add_case("norm", f"CRms {DT[p['xdtype']]} {DT[p['sdtype']]} {copt_dt(p['compute'])} {cbool(eps_ok)} {coptz2(obs)}", (variant, p, obs))
+                ranks = (len(p["shape"]), len(p["eps_shape"]) if eps_ok else 0, len(p.get("scale_shape", [p["shape"][-1]])))
+                st.add_case("norm", f"CRms @rank_guard:{variant}@ {DT[p['xdtype']]} {DT[p['sdtype']]} {copt_dt(p['compute'])} {cbool(eps_ok)} "
+                                    f"(Some {cnat(ranks[0])}) (Some {cnat(ranks[1])}) (Some {cnat(ranks[2])}) {coptz2(obs)}", (variant, p, obs))
         ctx.sample({"family": variant, "instance": insts[0][0]})
 
 
@@ -337,7 +351,7 @@ def fam_layer_norm(st):
             if ins != want_ins:
                 ctx.tie_broken("correspondence", f"{fam}:inputs", f"{p}: fused inputs {ins}, expected {want_ins}")
         if near is None:
-            st.add_case("norm", f"CLn {DT[p['dtype']]} true {coptz2(obs)}", (fam, p, obs))
+            st.add_case("norm", f"CLn @rank_guard:{fam}@ {DT[p['dtype']]} true (Some {cnat(rank)}) (Some {cnat(len(p['eps_shape']))}) (Some 1) {coptz2(obs)}", (fam, p, obs))
     # LayerNormalization + bias (existing node), axis / epsilon / stash_type forwarded
     nlb = 6 if ctx.tier == "quick" else 60
     for i in range(nlb + 4):
@@ -365,12 +379,21 @@ def fam_layer_norm(st):
     # finding classes
     probe(st, fam, N.ln_bias_model(dict(shape=[2, 3, 8], dtype="float32", bias_shape=[8], n_out=3)), fn, {"ln+bias": "3 declared outputs"},
           finding="C19:rules.fusion:layer_norm_bias:multi-output-LayerNormalization-raises", cls=(fam, "finding", 1))
-    probe(st, fam, N.layer_norm_model(dict(shape=[2, 3, 8], dtype="float32", sq="mul", norm="recip", eps=1e-5, scale_shape=[1, 1, 1, 8])), fn,
-          {"scale_shape": [1, 1, 1, 8]}, finding="C19:rules.fusion:layer_norm:epsilon-or-scale-rank-exceeds-input-rank", cls=(fam, "finding", 2))
-    probe(st, fam, N.layer_norm_model(dict(shape=[2, 3, 8], dtype="float32", sq="mul", norm="recip", eps=1e-5, eps_shape=[1, 1, 1, 1])), fn,
-          {"eps_shape": [1, 1, 1, 1]}, finding="C19:rules.fusion:layer_norm:epsilon-or-scale-rank-exceeds-input-rank", cls=(fam, "finding", 3))
-    probe(st, fam, N.ln_bias_model(dict(shape=[2, 3, 8], dtype="float32", bias_shape=[1, 2, 3, 8])), fn,
-          {"ln+bias": "bias rank 4 > x rank 3"}, finding="C19:rules.fusion:layer_norm:epsilon-or-scale-rank-exceeds-input-rank", cls=(fam, "finding", 4))
+    key = "C19:rules.fusion:layer_norm:epsilon-or-scale-rank-exceeds-input-rank"
+    f_eps, _ = probe(st, fam, N.layer_norm_model(dict(shape=[2, 3, 8], dtype="float32", sq="mul", norm="recip", eps=1e-5, eps_shape=[1, 1, 1, 1])), fn,
+                     {"eps_shape": [1, 1, 1, 1]}, finding=key, fused_ops=("LayerNormalization",), cls=(fam, "finding", 3))
+    st.flags["rank_guard:" + fam] = f_eps is False           # the witness of C19_ln_rank_as_read_refuted decides the variant
+    f_sc, m2 = probe(st, fam, N.layer_norm_model(dict(shape=[2, 3, 8], dtype="float32", sq="mul", norm="recip", eps=1e-5, scale_shape=[1, 1, 1, 8])), fn,
+                     {"scale_shape": [1, 1, 1, 8]}, finding=key, fused_ops=("LayerNormalization",), cls=(fam, "finding", 2))
+    for fired_, re_, rs_ in ((f_eps, 4, 1), (f_sc, 0, 4)):
+        if fired_ is not None:
+            st.add_case("norm", f"CLn @rank_guard:{fam}@ FLOAT true (Some 3) (Some {re_}) (Some {rs_}) {coptz2((-1, 1) if fired_ else None)}", (fam, "finding class", fired_))
+    for bshape in ([1, 2, 3, 8], [3, 8], [1, 1, 8]):
+        finding = key if len(bshape) > 3 else None
+        f_b, m2 = probe(st, fam, N.ln_bias_model(dict(shape=[2, 3, 8], dtype="float32", bias_shape=bshape)), fn,
+                        {"ln+bias": f"bias {bshape} against x of rank 3"}, finding=finding, cls=(fam, "ln+bias rank", len(bshape)))
+        if f_b is not None and m2 is not None:
+            st.add_case("norm", f"CLnBias @rank_guard:{fam}@ (Some 3) (Some {len(bshape)}) {cbool(len(find(m2, 'LayerNormalization')[0][3]) == 3)}", (fam, "ln+bias", bshape))
 
 
 # ============================================================================================= GELU
@@ -473,7 +496,15 @@ def fam_softmax(st):
         elif r < 0.3:
             near = "downcast-to-f32"
             p.update(down="float32")
-        probe(st, fam, M.softmax_model(p), fn, p, expect=near is None, cls=(fam, rank, axis is None, near), scale=pick(rng, [1.0, 4.0, 30.0]))
+        fired, m2 = probe(st, fam, M.softmax_model(p), fn, p, expect=near is None, cls=(fam, rank, axis is None, near), scale=pick(rng, [1.0, 4.0, 30.0]))
+        if fired is None:
+            continue
+        st.add_case("sm", f"CSoftmax (Some {DT[p.get('in_dtype', 'float16')]}) {DT[p.get('up', 'float32')]} {DT[p.get('down', 'float16')]} {cbool(fired)}", (fam, p, fired))
+        if fired:
+            sm_nodes = find(m2, "Softmax")
+            if find(m2, "Cast") or len(sm_nodes) != 1 or sm_nodes[0][2].get("axis") != axis:
+                # the model of rewrite: both Casts gone, the axis attribute forwarded as matched (absent stays absent)
+                ctx.tie_broken("correspondence", f"{fam}:rewrite", f"{p}: {ops_of(m2)} {sm_nodes}")
 
 
 # ============================================================================================= FusedMatMul
@@ -1013,6 +1044,8 @@ def fam_gqa(st):
         fired = bool(find(m2, "GroupQueryAttention", MS))
         st.stat(fam, "fired" if fired else "not_fired")
         gqa_fired += fired
+        if finding is not None and p["Dh"] == 8:
+            st.flags["gqa_head16"] = not fired               # the witness of C19_gqa_check_head_size_refuted decides the variant
         bad = None
         try:
             for f, b in zip(feeds, before):
@@ -1171,6 +1204,7 @@ def coq_correspondence(st):
                ("attn", "OV.Fusion.Attn", "list attn_case", "attn_disagreeing 0 cases"),
                ("gn", "OV.Fusion.GroupNorm", "list gn_case", "gn_disagreeing 0 cases"),
                ("cs", "OV.Fusion.CosSin", "list cs_case", "cs_disagreeing 0 cases"),
+               ("sm", "OV.Fusion.Softmax", "list softmax_case", "softmax_disagreeing 0 cases"),
                ("bgelu", "OV.Fusion.Gelu", "list bias_gelu_case", "(fix d (i : nat) (cs : list bias_gelu_case) : list nat := match cs with [] => [] | c :: t => (if bias_gelu_agrees c then [] else [i]) ++ d (S i) t end) 0%nat cases"))
     for name, req, ty, expr in streams:
         cases = st.cases[name]
@@ -1178,7 +1212,8 @@ def coq_correspondence(st):
             ctx.tie_broken("harness", f"correspondence:{name}", "no cases generated")
             continue
         pre = "Require Import OV.Fusion.Field.\n" + ("From Coq Require Import QArith.\nOpen Scope Q_scope.\n" if name == "sdpa" else "")
-        ok, vals, raw = ctx.coq_eval([req], pre + f"Definition cases : {ty} := {clist(cases)}.\nEval vm_compute in ({expr}).", name="c19_" + name)
+        cases = [st.flag_text(c) for c in cases]
+        ok, vals, raw = ctx.coq_eval((["OV.Fusion.Norm"] if name == "sm" else []) + [req], pre + f"Definition cases : {ty} := {clist(cases)}.\nEval vm_compute in ({expr}).", name="c19_" + name)
         if not ok or not vals:
             ctx.tie_broken("correspondence", f"{name}:model-evaluation", raw[-800:])
             continue
@@ -1206,6 +1241,7 @@ def run(ctx):
         fam(st)
     coq_correspondence(st)
     total_fired = sum(d.get("fired", 0) for d in st.stats.values())
+    ctx.cover(repaired_variants={k: bool(v) for k, v in sorted(st.flags.items())})
     ctx.cover(families=st.stats, fired_total=total_fired,
               structural_only=sorted(st.structural_only),
               executable_fused_ops=["SimplifiedLayerNormalization", "RMSNormalization", "LayerNormalization", "SkipSimplifiedLayerNormalization",
